@@ -212,7 +212,8 @@ def parseOpD (s : String) : Option Op :=
       if n < 2 ^ 62 && toString n == String.ofList rest then
         match k with
         | 'O' => some (.recvOpen n) | 'C' => some (.recvClose n) | 'E' => some (.recvEof n)
-        | 'G' => some (.recvGit n) | 'W' => some (.workerResult n)
+        | 'G' => if idKind n = 2 then some (.recvGit n) else none
+        | 'W' => some (.workerResult n)
         | _ => none
       else none
     | none => none
